@@ -112,6 +112,14 @@ def has_quantifier(e):
     return r[0]
 
 
+class ConcreteRaise(Exception):
+    """concrete cross-check run: the executed code raises here (a false noexc / assert obligation, or a raise statement)"""
+
+    def __init__(self, kind, tag):
+        Exception.__init__(self, "%s#%s" % (kind, tag))
+        self.kind, self.tag = kind, tag
+
+
 class Flow:
     NEXT, RETURN, BREAK, CONTINUE, RAISE = "next", "return", "break", "continue", "raise"
 
@@ -177,6 +185,22 @@ class Engine:
     # ------------------------------------------------------------------ obligations
     def oblige(self, st, kind, goal, tag=""):
         if self.spec_mode:
+            return
+        if getattr(self, "concrete", False):
+            # concrete cross-check run: every value is a constant, an obligation evaluates to a truth value; a false `noexc`/`assert` is the point where
+            # CPython raises
+            if goal is True or goal is False or isinstance(goal, (list, tuple)):
+                goals = goal if isinstance(goal, (list, tuple)) else [z3.BoolVal(bool(goal))]
+            else:
+                goals = [goal]
+            if any(z3.is_false(z3.simplify(c)) for c in st.pc if z3.is_expr(c)):
+                return       # inside a short-circuited operand / untaken conditional expression: not executed
+            for g in goals:
+                v = z3.simplify(g)
+                if z3.is_false(v):
+                    raise ConcreteRaise(kind, tag)
+                if not z3.is_true(v):
+                    raise Unsupported("concrete run left a symbolic obligation %s#%s: %s" % (kind, tag, str(v)[:300]))
             return
         if goal is True:
             return
@@ -719,6 +743,8 @@ class Engine:
         if z3.is_false(c):
             yield from self.exec_block(node.orelse, st)
             return
+        if getattr(self, "concrete", False):
+            raise Unsupported("concrete run reached an undetermined branch condition: %s" % c)
         st2 = st.copy()
         if self.feasible(st, c):
             st.assume(c)
@@ -880,6 +906,8 @@ class Engine:
         o = self.loop_ordinal(node)
         spec = self.contract.loops.get(o)
         if spec is None:
+            if getattr(self, "concrete", False):
+                return o, {}
             raise Unsupported("loop %d of %s has no invariant" % (o, self.contract.qualname))
         return o, spec
 
@@ -918,6 +946,30 @@ class Engine:
                                  pre_body=None, post_body=None, extra_havoc=(), auto_variant=None)
 
     def run_loop(self, st, o, spec, body, guard, pre_body, post_body, extra_havoc, auto_variant, implicit_inv=None):
+        if getattr(self, "concrete", False):
+            # concrete cross-check run: the loop is simply executed
+            for _ in range(100000):
+                g = z3.simplify(guard(st))
+                if z3.is_false(g):
+                    yield st, (Flow.NEXT,)
+                    return
+                if not z3.is_true(g):
+                    raise Unsupported("concrete run reached an undetermined loop condition")
+                if pre_body:
+                    pre_body(st)
+                outs = list(self.exec_block(body, st))
+                if len(outs) != 1:
+                    raise Unsupported("concrete run forked")
+                st, flow = outs[0]
+                if flow[0] == Flow.BREAK:
+                    yield st, (Flow.NEXT,)
+                    return
+                if flow[0] not in (Flow.NEXT, Flow.CONTINUE):
+                    yield st, flow
+                    return
+                if post_body:
+                    post_body(st)
+            raise Unsupported("concrete run: loop bound exceeded")
         # ghost snapshot: values at loop entry are available to invariants as entry(<name>)
         entry = st.copy()
         st.env["__entry%d__" % o] = entry
@@ -1108,6 +1160,11 @@ class Engine:
             if seq is NotImplemented:
                 seq = self.load_field(st, it, self.reg.iter_fields[it.cls])
             return self.iter_protocol(seq, st)
+        if isinstance(it, VSet) and getattr(self, "concrete", False):
+            if not hasattr(it, "items"):
+                raise Unsupported("concrete run: iteration over a set whose elements are not known")
+            items = list(it.items)
+            return z3.IntVal(len(items)), (lambda j: items[z3.simplify(j).as_long()])
         if isinstance(it, VSet):
             # a (finite) set is iterated in SOME order without repetition: an enumeration `ord` of its elements, unknown to the proof
             zs = it.key.z3sort()
@@ -1720,7 +1777,51 @@ class Engine:
         c, e = self.with_bound(st, target, getter(i), body)
         return n, i, c, e
 
+    def concrete_items(self, v, st):
+        """concrete cross-check run: the items of an iterable as a Python list of constants (comprehensions are evaluated element by element)"""
+        if isinstance(v, VTuple):
+            return list(v.items)
+        if isinstance(v, VGen):
+            n, getter, target, elt, ifs = self.gen_parts(v, st)
+            n = z3.simplify(n).as_long()
+            out = []
+            saved = dict(st.env)
+            try:
+                for k in range(n):
+                    self.assign(target, getter(z3.IntVal(k)), st, True)
+                    keep = True
+                    for f in ifs:
+                        c = z3.simplify(as_bool(self.eval(f, st)))
+                        if not (z3.is_true(c) or z3.is_false(c)):
+                            raise Unsupported("concrete run: undetermined comprehension filter")
+                        keep = keep and z3.is_true(c)
+                        if not keep:
+                            break
+                    if keep:
+                        out.append(self.eval(elt, st))
+            finally:
+                st.env = saved
+            return out
+        n, getter = self.iter_protocol(v, st)
+        if n is None:
+            raise Unsupported("concrete run: items of %r" % (v,))
+        return [getter(z3.IntVal(k)) for k in range(z3.simplify(n).as_long())]
+
+    def const_list(self, items, elem=None):
+        if not items and elem is None:
+            return ("emptylist",)
+        s_ = elem or sort_of(items[0])
+        if isinstance(s_, LIST) and s_.is_str:
+            s_ = STR
+        arr = z3.K(z3.IntSort(), to_z3(items[0], s_) if items else to_z3(s_.fresh("d"), s_))
+        for k, x in enumerate(items):
+            arr = z3.Store(arr, k, to_z3(x, s_))
+        return VList(s_, arr, z3.IntVal(len(items)))
+
     def materialize(self, gen, st):
+        if getattr(self, "concrete", False):
+            items = self.concrete_items(gen, st)
+            return self.const_list(items, elem=None if items else INT)
         n, i, c, e = self.gen_lambda(gen, st)
         s = sort_of(e)
         if not z3.is_true(z3.simplify(c)):
@@ -1891,6 +1992,15 @@ def desugar_comprehensions(fn):
                 return any(isinstance(n, ast.Call) for p_ in parts for n in ast.walk(p_))
             if isinstance(val, (ast.DictComp, ast.ListComp, ast.SetComp)) and len(val.generators) == 1 and not val.generators[0].is_async and effectful(val):
                 g = val.generators[0]
+                # comprehension variables live in a scope of their own: rename them apart when the name occurs anywhere else in the function
+                inside = {id(n) for n in ast.walk(val)} - {id(n) for n in ast.walk(g.iter)}
+                outside_names = {n.id for n in ast.walk(fn) if isinstance(n, ast.Name) and id(n) not in inside} | {a.arg for a in fn.args.args}
+                bound = {n.id for n in ast.walk(g.target) if isinstance(n, ast.Name)}
+                ren = {b: "__c%d_%s" % (counter[0], b) for b in bound if b in outside_names}
+                if ren:
+                    for n in ast.walk(val):
+                        if isinstance(n, ast.Name) and id(n) in inside and n.id in ren:
+                            n.id = ren[n.id]
                 tmp = "__comp%d" % counter[0]
                 counter[0] += 1
                 acc = ast.Name(id=tmp, ctx=ast.Load())
